@@ -245,8 +245,14 @@ def ed25519_case(maxlen):
                 if not good:
                     raise nacl.exceptions.BadSignatureError("Signature was forged or corrupt")
         k = DK.Ed25519Key.__new__(DK.Ed25519Key)
-        k._verifying_key = VK()
-        k._signing_key = None
+        # the two ways a key object comes about: from public bytes (a verifying key only) or from a private key file
+        # (a signing key, from which the verifying key derives)
+        if ctx.flag("key-object-loaded-from-a-private-key"):
+            k._verifying_key = None
+            k._signing_key = type("SK", (), {"verify_key": VK()})()
+        else:
+            k._verifying_key = VK()
+            k._signing_key = None
         k.public_blob = None
         with ctx.patches(std_patches(PM, PU, builtins=("int",))):
             _run(ctx, k, blob)
